@@ -216,7 +216,13 @@ where
     type Stream = Self;
 
     fn into_parts(self) -> (Vector<VectorDiffContainerStreamElement<S>>, Self::Stream) {
-        (self.buffered_vector.clone(), self)
+        // The values the next observer starts from are the current view, not
+        // the buffered copy of the underlying vector.
+        let values = self.buffered_vector.clone();
+        let values =
+            if self.limit < values.len() { values.truncate_from_end(self.limit) } else { values };
+
+        (values, self)
     }
 }
 
